@@ -334,6 +334,9 @@ class Run:
                   known_findings_hit=sorted(listed.keys()))
         # extra-coverage checks (ids starting with X) are not properties: their evidence stays under work/
         evdir = EVID if self.pid.startswith("C") else self.work
+        if os.environ.get("VERIF_EVIDENCE_DIR"):       # bin/seed-run: runs on deliberately broken trees must not overwrite the evidence
+            evdir = os.environ["VERIF_EVIDENCE_DIR"]
+            os.makedirs(evdir, exist_ok=True)
         with open(os.path.join(evdir, self.pid + ".json"), "w") as fh:
             json.dump(ev, fh, indent=1, default=str)
         log("[%s] done in %.1fs: %d distinct case classes, %d violation key(s), %d known" %
